@@ -23,7 +23,7 @@ _KNOWN = {
     "DatabaseRef for CacheDB<ExtDB>": "verus",
     "Database for EmptyDBTyped<E>": "verus",
     "DatabaseRef for EmptyDBTyped<E>": "verus",
-    "Database for State<DB>": "verus finding (has_storage) only; basic/code_by_hash/storage/block_hash NOT covered",
+    "Database for State<DB>": "verus: code_by_hash + finding (has_storage); basic/storage/block_hash NOT covered",
     "Database for BenchmarkDB": "leaf database (fixed answers), not a wrapper: out of scope",
 }
 
@@ -66,9 +66,13 @@ def _has_storage_census():
 _KB = ("loop-free harness over a stub inner database whose five answers are fully symbolic (Ok/Err, all 256 bits of balance / "
        "storage value / hashes, nonce, error code) and symbolic query arguments: complete over that domain (AccountInfo.code is "
        "always None; Bytecode answers are compared by Ok/Err only)")
-_KANI = [dict(crate="kdb", harness="c20::" + h, bounded=False, bound=_KB, timeout=600, mem_gb=10)
-         for h in ["database_mut_ref", "database_box", "database_ref_shared_ref", "database_ref_mut_ref", "database_ref_box",
-                   "database_ref_rc", "database_ref_arc", "components_database", "components_database_ref"]]
+_QUICK_LAYERS = ["database_mut_ref", "database_box", "database_ref_shared_ref", "components_database", "components_database_ref"]
+_THOROUGH_LAYERS = ["database_ref_mut_ref", "database_ref_box", "database_ref_rc", "database_ref_arc"]
+# three harnesses per layer: _words (storage, block_hash, has_storage), _info (basic), _code (code_by_hash)
+_KANI = [dict(crate="kdb", harness=f"c20::{l}_{part}", bounded=False, bound=_KB, timeout=400, mem_gb=10)
+         for l in _QUICK_LAYERS for part in ("words", "info", "code")]
+_KANI += [dict(crate="kdb", harness=f"c20::{l}_{part}", bounded=False, bound=_KB, timeout=400, mem_gb=10, thorough_only=True)
+          for l in _THOROUGH_LAYERS for part in ("words", "info", "code")]
 
 PROP = dict(
     level="proof",
@@ -94,21 +98,23 @@ PROP = dict(
                "untouched, and that 'caching never changes an answer': after an Ok answer x the cache itself answers the same question with x, "
                "and its answers about every other address / hash are what they were. "
                "(5) the DbAccount helpers (new_not_existing, info, From<AccountInfo>, From<Option<AccountInfo>>). "
+               "(6) State<DB>::code_by_hash: the cached code, else (preloaded bundle) the bundle's code, else exactly the answer (Ok or Err) the wrapped "
+               "`&mut` database gives for the same hash (named by an uninterpreted input/output relation on the external trait method, since "
+               "call_ensures cannot take a &mut argument); an Ok answer is cached, the same question is then answered from the cache, nothing else changes. "
                "COMPLETE (Kani, loop-free, symbolic answers): &mut D and Box<D> as Database, &D / &mut D / Box<D> / Rc<D> / Arc<D> as DatabaseRef "
                "(all five methods incl. has_storage), DatabaseComponents as Database and DatabaseRef (basic / code_by_hash / storage from the "
                "state component with errors wrapped in ::State, block_hash from the block-hash component with errors wrapped in ::BlockHash).",
     level_note="NOT covered (named, nothing is claimed for them): "
-               "(a) State<DB>::{basic, code_by_hash, storage, block_hash} incl. the 256-block hash window: block_hash uses the BTreeMap "
-               "entry / first_entry API (no vstd model), basic/storage go through CacheState/CacheAccount/BundleState (C15-C19's unit); Kani cannot "
-               "stand in because kani-compiler cannot build crate `revm`. "
+               "(a) State<DB>::{basic, storage, block_hash} incl. the 256-block hash window: block_hash uses the BTreeMap entry / first_entry / "
+               "OccupiedEntry::remove API, for which vstd has no model (vstd models only HashMap's entry API); storage wraps the database call in a "
+               "closure capturing `&mut self.database` with `?` inside (no Verus support); basic goes through load_cache_account and the "
+               "CacheAccount / BundleAccount / AccountStatus constructors (C15-C19's vocabulary). Kani cannot stand in because kani-compiler cannot build crate `revm`. "
                "(b) commit histories: CacheDB::commit (for-loop over a HashMap + iterator adapters) and the insert_* / load_account helpers are "
                "outside the unit; the contracts above hold for EVERY cache content, hence for every content a commit history produces, but that "
                "commit produces the right content is not proved here. "
-               "(c) CacheDB::basic, miss path, existing account: the cached DbAccount is built by the un-annotated closure "
-               "`|info| DbAccount { info, ..Default::default() }`, for which Verus has no contract; proved for that path: the wrapped database was "
-               "asked with the same address, an error is passed on, the account is cached, the answer returned IS the answer the cache holds from "
-               "then on, every other entry is untouched; NOT proved: that the cached info equals the wrapped answer (needs a closure contract: "
-               "generator feature requested). The not-existing case (None) and CacheDB::storage's miss path (which uses From, not a closure) are proved in full. "
+               "(c) CacheDB::basic builds the cached account with the inline closure `|info| DbAccount { info, ..Default::default() }`; Verus has no "
+               "contract for an un-annotated closure, so the extractor re-brackets it as `|info| -> (acc: DbAccount) ensures loaded_account(Some(info), acc) "
+               "{ <body verbatim> }` (//@hint closure, recorded under extraction_drops); Verus proves that ensures on the closure body. "
                "(d) on an Err of the wrapped database inside `entry.insert(<expr>?)` (basic, code_by_hash) the contract is silent about the cache "
                "content (Verus does not resolve the moved VacantEntry on that exit); storage and block_hash prove 'unchanged' on their error paths. "
                "(e) DatabaseComponents' methods cannot go through Verus (datatype constructor used as a function value in map_err): Kani, complete over the stub domain. "
@@ -133,8 +139,7 @@ PROP = dict(
         "call_ensures(T::f_ref, (&inner, args), r) is read as 'r is an answer of the wrapped data for args'; for a wrapped database whose "
         "answers are a function of (data, args) this is 'the same answer'",
         "CacheDB::storage: an account absent from the wrapped database has no storage there (the cache answers zero without asking)",
-        "CacheDB::basic miss path with an existing account: cached info == wrapped info NOT proved (closure without contract)",
-        "State<DB> queries, commit histories and the block-hash window are NOT covered",
+        "State<DB>::{basic, storage, block_hash}, commit histories and the 256-block hash window are NOT covered",
         "Kani harnesses: AccountInfo.code is None, Bytecode answers compared by Ok/Err only",
         "FINDING has_storage not forwarded by CacheDB / State / DatabaseComponents (see known_findings.txt)",
     ],
